@@ -1,12 +1,17 @@
 """C06 — solve() ends with a status or a deliberate error, never an internal crash."""
 from ..gen import Gen
 from ..unit import run_unit
-from .. import camp_props
+from .. import camp_props, common
+from ..units.penalty import Penalty
+from ..units.loop import Loop
 
-PROP_FILES = []
+PROP_FILES = ["props/C06.v"]
 TECHNIQUE = "Coq proof + regenerated structural facts + correspondence"
 
 
 def run(rep, tier, seed, scratch):
     g = Gen(seed)
+    common.facts_obligations(rep, 'C06', scratch)
+    for u in (Penalty(), Loop()):
+        run_unit(rep, u, u.gen(g, tier), scratch)
     camp_props.run_single(rep, 'C06', tier, seed, 60, 500)
